@@ -5,6 +5,7 @@ namespace c14 {
 extern template bool run_lattice<float> (bool);  extern template bool run_extreme<float> (bool);
 extern template bool run_lattice<double> (bool); extern template bool run_extreme<double> (bool);
 extern template bool run_rounding<float> (bool); extern template bool run_rounding<double> (bool);
+extern template bool run_elongated<float> (bool); extern template bool run_elongated<double> (bool);
 }
 using namespace vf;
 
@@ -32,6 +33,9 @@ int main (int argc, char** argv)
         : "direction components {0,+-denorm_min,+-min,+-2^-100,+-1,+-2^100,+-max}^3 minus 0 x boxes (per-axis (0,1),(1,1),(0,2),(1,0))s x origins {-1,0,1,3}^3 s, scales s in {min,2^-100,1,2^100,2^(emax-5)}";
     run_stage ("lattice.float", lat, [&] { return c14::run_lattice<float> (th); });
     run_stage ("lattice.double", lat, [&] { return c14::run_lattice<double> (th); });
+    const char* elo = "boxes: every (min,max) over {0,1,12} per axis (729: cubes, 12x1x1 slabs, plates, flat, inverted) x origins {-1,1,6,11,13}^3 x directions {-3..3}^3 minus 0; 3 entry points; exact integer slab oracle";
+    run_stage ("elongated.float", elo, [&] { return c14::run_elongated<float> (th); });
+    run_stage ("elongated.double", elo, [&] { return c14::run_elongated<double> (th); });
     const char* rnd = "rounding-at-the-boundary alphabet: direction components {0,+-d,+-e}, boxes (min,max) over {0,D,P} per axis incl. flat/inverted, origins {-D,0,D,P,P+D}^3; float (D,d,e,P)=(1,7,21,3), double (5,29,87,15)";
     run_stage ("rounding.float", rnd, [&] { return c14::run_rounding<float> (th); });
     run_stage ("rounding.double", rnd, [&] { return c14::run_rounding<double> (th); });
